@@ -174,6 +174,15 @@ Definition prompt_pair (d : dfa) (g : graph) (R : rankmap) (s : sid) (q : qid) :
 Definition prompt_ok (d : dfa) (g : graph) (V : pairing) (R : rankmap) : bool :=
   forallb (fun kv => forallb (prompt_pair d g R (fst kv)) (snd kv)) (PositiveMap.elements V).
 
+(* the strict form, required of definitions without look-around assertions: a determined pair never waits *)
+Definition prompt_strict_pair (d : dfa) (g : graph) (R : rankmap) (s : sid) (q : qid) : bool :=
+  match gfind g s with
+  | None => false
+  | Some st => if determined d R q then negb (partial_mode_test st) else true
+  end.
+Definition prompt_strict_ok (d : dfa) (g : graph) (V : pairing) (R : rankmap) : bool :=
+  forallb (fun kv => forallb (prompt_strict_pair d g R (fst kv)) (snd kv)) (PositiveMap.elements V).
+
 (* ---------- UTF-8 (C04, C12): matches end on char boundaries ----------
    PU: a set of (DFA state, UTF-8 automaton state) pairs containing (start, U0) and closed under
    every byte the UTF-8 automaton accepts; whenever a unit successor is a match state the UTF-8
